@@ -1,4 +1,6 @@
 """C06 - every write+read format preserves frame identity and signal bit layout."""
+import json
+
 from lib import roundtrip as R
 
 PID = "C06"
@@ -95,4 +97,12 @@ def nontrivial(case, impl):
 
 
 def classify(case, impl, spec):
+    """known finding: SYM names an enumeration after its signal, so two equal-named signals of different frames with different
+    value tables share one enumeration after the round trip"""
+    c = case["c"]
+    if case["op"] == "frame" and c["fmt"] == "sym" and spec and spec.startswith("fail: value table of "):
+        name = spec[len("fail: value table of "):].split(" ")[0]
+        tables = [json.dumps(s["values"], sort_keys=True) for f in c["m"]["frames"] for s in f["signals"] if s["name"] == name and s["values"]]
+        if len(set(tables)) > 1:
+            return "C07-sym-enum-name-collision"
     return None
